@@ -6,7 +6,7 @@
    JSONSerializer enter through the [oracles] record).  Executable definitions only. *)
 From Coq Require Import List NArith ZArith Bool.
 Import ListNotations.
-Require Import Verif.Lib.Wire Verif.Gen.Facts_C10.
+Require Import Verif.Lib.Wire Verif.Lib.Utf8 Verif.Gen.Facts_C10.
 
 (* ------------------------------------------------------------------ JSON data model *)
 (* Clock: time.time() is a float on a grid of 1/tick seconds (tick = 4: 0.25 s, exactly representable,
@@ -118,7 +118,7 @@ Definition loads (O : oracles) (k c : text) : option jv :=
 Inductive fres := FOk (z : Z) | FErr | FUnm.
 Definition is_digit (c : N) : bool := (48 <=? c)%N && (c <=? 57)%N.
 Definition float_ok_char (c : N) : bool :=     (* ASCII characters that may occur in a float literal *)
-  is_digit c || memN c [43; 45; 46; 95; 32; 9; 10; 11; 12; 13;
+  is_digit c || memN c [43; 45; 46; 95; 32; 9; 10; 11; 12; 13; 28; 29; 30; 31;
                         105; 110; 102; 97; 116; 121; 101; 73; 78; 70; 65; 84; 89; 69]%N.
 Definition digits_val (s : text) : Z := fold_left (fun a c => (a * 10 + Z.of_N (c - 48))%Z) s 0%Z.
 Definition float_of (v : jv) : fres :=
@@ -375,3 +375,81 @@ Definition append_at (k : text) (x : jv) (s : sess) : option sess :=
   | Some (JList l) => Some (with_st s (d_set k (JList (l ++ [x])) (st s)))
   | _ => None
   end.
+
+(* ================================================================== the factory layer
+   SignedCookieSessionFactory(secret, .., timeout, reissue_time, max_age, set_on_exception, salt, ..) builds the
+   serializer handed to BaseCookieSessionFactory, whose class body converts the options (`x if x is None else
+   int(x)`) ONCE, at configuration time.  Option values as the caller may pass them: *)
+Inductive cfgv := CNone | CInt (z : Z) | CBool (b : bool) | CFlt (q : Z) (* float, in ticks *) | CStr (s : text).
+
+(* int(x): FErr = TypeError / ValueError; FUnm = a string this model does not decide *)
+Definition int_ok_char (c : N) : bool :=       (* ASCII characters that may occur in a base-10 int literal *)
+  is_digit c || memN c [43; 45; 95; 32; 9; 10; 11; 12; 13; 28; 29; 30; 31]%N.
+Definition int_of (v : cfgv) : fres :=
+  match v with
+  | CNone => FErr
+  | CInt z => FOk z
+  | CBool b => FOk (if b then 1 else 0)%Z          (* bool is an int *)
+  | CFlt q => FOk (Z.quot q tick)                  (* truncation towards zero *)
+  | CStr s =>
+      if negb (Nat.eqb (length s) 0) && forallb is_digit s && Nat.leb (length s) 15 then FOk (digits_val s)
+      else if existsb (fun c => (c <? 128)%N && negb (int_ok_char c)) s then FErr
+      else match s with [] => FErr | _ => FUnm end
+  end.
+(* truth value of an option value (`if not self._cookie_on_exception`) *)
+Definition py_truth (v : cfgv) : bool :=
+  match v with
+  | CNone => false | CInt z => negb (Z.eqb z 0) | CBool b => b | CFlt q => negb (Z.eqb q 0)
+  | CStr s => negb (Nat.eqb (length s) 0)
+  end.
+Definition is_cnone (v : cfgv) : bool := match v with CNone => true | _ => false end.
+
+(* which serializer object the factory builds: WebOb's SignedSerializer(secret, salt, hashalg, JSONSerializer()),
+   possibly wrapped in pyramid.session._CanonicalBase64Serializer *)
+Inductive serdesc := SSigned (secret : text) (salt : option text) | SCanon (d : serdesc).
+
+Record fargs := { fa_secret : text; fa_salt : option text; fa_max_age : cfgv; fa_timeout : cfgv; fa_reissue : cfgv;
+                  fa_soe : cfgv }.                      (* arguments of SignedCookieSessionFactory *)
+Record bargs := { b_ser : serdesc; b_max_age : cfgv; b_timeout : cfgv; b_reissue : cfgv; b_soe : cfgv }.
+                                                        (* what it hands to BaseCookieSessionFactory *)
+Record cfg := { c_max_age : option Z; c_timeout : option Z; c_reissue : option Z; c_soe : cfgv }.
+                                                        (* class attributes of CookieSession *)
+Inductive ores := OOk (v : option Z) | ORaise | OUnm.
+Inductive cres := CfgOk (c : cfg) | CfgRaise | CfgUnm.
+Definition oint (v : cfgv) : ores := match int_of v with FOk z => OOk (Some z) | FErr => ORaise | FUnm => OUnm end.
+Definition cfg_bind (e : ores) (k : option Z -> cres) : cres :=
+  match e with OOk v => k v | ORaise => CfgRaise | OUnm => CfgUnm end.
+
+(* ---- reference model of the factory layer *)
+Definition cfg_conv (v : cfgv) : ores := if is_cnone v then OOk None else oint v.     (* x if x is None else int(x) *)
+Definition config (b : bargs) : cres :=
+  cfg_bind (cfg_conv (b_max_age b)) (fun m =>
+  cfg_bind (cfg_conv (b_reissue b)) (fun r =>
+  cfg_bind (cfg_conv (b_timeout b)) (fun t =>
+  CfgOk {| c_max_age := m; c_timeout := t; c_reissue := r; c_soe := b_soe b |}))).
+Definition signed_factory (a : fargs) : bargs :=
+  {| b_ser := (if canonical_check then SCanon (SSigned (fa_secret a) (fa_salt a)) else SSigned (fa_secret a) (fa_salt a));
+     b_max_age := fa_max_age a; b_timeout := fa_timeout a; b_reissue := fa_reissue a; b_soe := fa_soe a |}.
+
+(* WebOb SignedSerializer: salted_secret = bytes_(salt or '') + bytes_(secret) in latin-1 if BOTH can be encoded so,
+   otherwise both in UTF-8 *)
+Definition latin1 (s : text) : bool := forallb (fun c => (c <? 256)%N) s.
+Definition salted_key (salt : option text) (secret : text) : text :=
+  let s := match salt with Some s => s | None => [] end in
+  if latin1 s && latin1 secret then s ++ secret else Utf8.encode s ++ Utf8.encode secret.
+(* WebOb SignedSerializer.loads (no canonical-text check); None = ValueError *)
+Definition signed_loads (O : oracles) (k c : text) : option jv :=
+  match unb64 O c with
+  | None => None
+  | Some f => let cs := skipn (ds O) f in
+              if text_eqb (mac O k cs) (firstn (ds O) f) then deser O cs else None
+  end.
+(* reference model of _CanonicalBase64Serializer.loads around an inner loads *)
+Definition canon_loads (O : oracles) (inner : text -> option jv) (c : text) : option jv :=
+  match unb64 O c with
+  | None => None
+  | Some f => if text_eqb (b64 O f) c then inner c else None
+  end.
+Fixpoint ser_key (d : serdesc) : text :=
+  match d with SSigned sec salt => salted_key salt sec | SCanon d' => ser_key d' end.
+Definition ser_canonical (d : serdesc) : bool := match d with SCanon _ => true | SSigned _ _ => false end.
